@@ -1,7 +1,12 @@
 SPEC = {
     "corr": [{"kind": "ipfix-wf", "quick": 6000, "thorough": 600000},
              {"kind": "ipfix", "quick": 4000, "thorough": 300000},
-             {"kind": "interp", "quick": 4000, "thorough": 300000}],
+             {"kind": "interp", "quick": 4000, "thorough": 300000},
+             # the property is also observed on the published JSON: the real IPFIX workers (1..64 goroutines, the real read loop and its
+             # receive-buffer pool) on the same kind of datagrams — every published payload must be the solo decode of its own datagram
+             # (values that alias a recycled receive buffer show only here; seed C03-f)
+             {"kind": "pipeline", "quick": 32, "thorough": 1200, "runner": {"pkg": "./vflow", "test": "TestVerifPipeline", "race": False},
+              "env": {"VERIF_PIPE_PROTO": "ipfix"}}],
     "rule": "ipfix-wf: sessions of well-formed generated IPFIX messages (template / options template / data sets, IANA and "
             "enterprise elements, fixed lengths incl. integers in more octets than their type (size+1..8 and 9..12) and the 65535 "
             "marker on elements of ANY type with 1- and 3-octet prefixes, data records of any positive "
